@@ -1156,6 +1156,12 @@ func main() {
 		os.Exit(2)
 	}
 	workDir = envOr("VERIF_WORK", filepath.Join(verifDir, ".work"))
+	stdout := os.Stdout
+	if err := sim.InitHarness(); err != nil {
+		os.Stdout = stdout
+		fatal2("harness init: %v", err)
+	}
+	os.Stdout = stdout // the engine is muted through the writers it captured; the driver itself prints
 	_ = os.MkdirAll(filepath.Join(workDir, "run"), 0o755)
 	_ = os.MkdirAll(filepath.Join(workDir, "cwd"), 0o755)
 	switch os.Args[1] {
